@@ -110,6 +110,9 @@ EXPORT errno_t _memcpy32_s_chk(uint32_t *dest, rsize_t dmax,
     if (srcbos == BOS_UNKNOWN) {
         BND_CHK_PTR_BOUNDS(src, smax);
     } else if (unlikely(smax > srcbos)) {
+        /* a violation clears dest (K.3.7.1.1), this one included */
+        mem_prim_set(dest, dmax, 0);
+        MEMORY_BARRIER;
         invoke_safe_mem_constraint_handler("memcmp32_s: slen exceeds src",
                                            (void *)src, ESLEMAX);
         return (RCNEGATE(ESLEMAX));
